@@ -1667,7 +1667,7 @@ class Scalar(Qube):
             # Plow forward with the results blindly, then mask nan and inf.
             # Zero to a negative power creates a RuntTimeWarning, which needs to
             # be suppressed.
-            with warnings.catch_warnings():
+            with warnings.catch_warnings(), np.errstate(all='ignore'):
                 warnings.simplefilter('ignore')
                 new_values = self._values_ ** expo_values
 
